@@ -18,7 +18,8 @@ EXPLANATION = (
     "with are tabulated at the separator characters; (R9) PUT and GET seek to an offset computed from "
     "the record number and the handle's record length only; (R10) GET accepts a short record while PUT does not pad; (R11) the text readers decode the collected bytes as a whole - no character cast from a single byte is pushed into the string they return (PRINT # writes UTF-8 bytes)."
     " (R15) where the checker of a built-in statement walks an argument list of any length, its run() walks it too (CLOSE #1, #2 closes both)."
-    " (R16) PUT, GET, CVD and MKD$ convert between strings and bytes through the VM's byte-per-character codec only and never touch the UTF-8 bytes of a string.")
+    " (R16) PUT, GET, CVD and MKD$ convert between strings and bytes through the VM's byte-per-character codec only and never touch the UTF-8 bytes of a string."
+    " (R17) the record number PUT / GET hand to put_record / get_record is made by a conversion whose every numeric cast is the LONG-range cast (QBNumberCast<i64>).")
 NOT_DECIDED = ["read-back equality of file contents, exactness of EOF, record contents (value-level)"]
 
 RE = "rusty_basic::interpreter::error::RuntimeError"
